@@ -405,7 +405,12 @@ pub fn run(ctx: &mut Ctx) {
                 for j in 0..n {
                     ops.push(Op::Add(base + j, 1));
                 }
-                ids.extend([base, base + (1 << 20) - 1, base + (1 << 20), base + (1 << 20) + 1, base + n - 1, base + n]);
+                // the content is shared by far more than 2^16 ids: remove the earliest 65 540 sharers again (the later ones
+                // must keep their content)
+                for j in 0..65_540u64 {
+                    ops.push(Op::Remove(base + j));
+                }
+                ids.extend([base, base + 65_539, base + 65_540, base + 65_541, base + (1 << 20) - 1, base + (1 << 20), base + (1 << 20) + 1, base + n - 1, base + n]);
                 ops.push(Op::Reopen(i % 48 == 10, R::CODECS[((i / 24) % 4) as usize]));
                 ops.push(Op::Reopen(i % 48 != 10, R::CODECS[((i / 24 + 1) % 4) as usize]));
                 ctx.count("histories_with_a_run_beyond_2_pow_20");
